@@ -640,10 +640,10 @@ pub fn run(id: &str) {
                 let b = Covenant::from_ops(&ops).to_bytes();
                 melvm::verif_hooks::reset_counters();
                 let _ = melvm::covenant_weight_from_bytes(&b);
-                calls.push((n, b.len(), melvm::verif_hooks::car_weight_calls()));
+                calls.push((n, b.len(), melvm::verif_hooks::weigh_pass_steps() + melvm::verif_hooks::car_weight_calls()));
             }
             let expo = calls.iter().all(|(n, _, c)| *c as u128 >= (1u128 << n) - 1);
-            verdict(id, expo, &format!("(loops, bytes, car-weight calls)={:?}", calls));
+            verdict(id, expo, &format!("(loops, bytes, weigher steps)={:?}", calls));
         }
         // legacy deposit rule inflates (deliberate bug compatibility below height 978392 on mainnet/testnet)
         "K-legacy-deposit" => {
